@@ -62,6 +62,11 @@ def script(case):
         ext = "/bin/true " + args
         w = {"extfirst": ext + " | cat >/dev/null", "extlast": "true | " + ext, "extbg": ext + " & wait", "extcs": ': "$(' + ext + ')"'}[case["ctx"]]
         return "cd w || exit 9\n" + HEAD + 'D warm "$@"\n: > ../dump\nD before "$@"\n' + w + ' 2>/dev/null\nD after "$@"\n'
+    if case["ctx"].startswith("in_"):
+        # the parent that must stay unchanged is itself a subshell: both dumps are taken inside it, around a nested ( )
+        inner = 'D before "$@"\n( %s ) 2>/dev/null\nD after "$@"' % body
+        w = {"in_bg": "(\n%s\n) & wait", "in_paren": "(\n%s\n)", "in_cs": ': "$(\n%s\n)"', "in_pipe": "true | {\n%s\n}"}[case["ctx"]] % inner
+        return "cd w || exit 9\n" + HEAD + 'D warm "$@"\n: > ../dump\n' + w + "\n"
     pre, w = "", wrap(case["ctx"], body)
     if case["ctx"] == "funcsub":
         pre, w = "h() ( %s )\n" % body, "h"          # defining h is the parent's own doing: it happens before the first dump
@@ -161,7 +166,7 @@ def run(tier):
         raise ToolError("model/bash disagreement rate too high: %d of %d" % (v.audit_disagreements, evals))
     return v.finish({
         "states": states, "transitions": len(ideal), "traces_validated_against_impl": evals, "evaluations": evals, "distinct_nontrivial": nontrivial,
-        "rule": "subshell contexts {( ), $( ), backquotes, first pipeline stage, last pipeline stage, background job + wait, process substitution, coproc, nested ( ( ) ), function with a ( ) body} x every sequence of <= 2 of %d mutators "
+        "rule": "subshell contexts {the parent observed from inside a background ( ), a ( ), a $( ) and a pipeline stage around a nested ( ); ( ), $( ), backquotes, first pipeline stage, last pipeline stage, background job + wait, process substitution, coproc, nested ( ( ) ), function with a ( ) body} x every sequence of <= 2 of %d mutators "
                 "(assignments of several kinds, unset, export, readonly, attributes, IFS, PATH, function definition / removal, set -e -u -f pipefail, shopt, alias / unalias, traps (signal, EXIT, DEBUG), cd, umask, ulimit, set --, shift, "
                 "exec redirections of 3 / 2 / 0, pushd, hash, exit)%s; the parent's dump of 13 components before and after must differ exactly where Subshell.tla says" % (len(MUT), " (all single mutators, 5000 sampled pairs)" if tier == "quick" else ""),
         "cases": len(cases), "exhaustive": tier != "quick",
